@@ -31,11 +31,7 @@ def generate(repo):
             need(' '.join(fr.split()) in s, '__run_flatcheck: missing `%s`' % fr[:50])
         need('return 1.0 / float(self.nbins_actual)' in W('getBinSize'), 'getBinSize')
         need('binsz = self.getBinSize() return binsz / 2 + binsz * np.arange(0, self.nbins_actual)' in W('getBinCenters'), 'getBinCenters')
-        s = W('__init__')
-        for fr in ['binWidth = diff / float(self.nbins_target)', 'self.nbins_actual = int(round(1 / binWidth))',
-                   'self.relevant_min = np.argmin(abs(bincts - (self.binmin + binWidth / 2)))',
-                   'self.relevant_max = self.relevant_min + self.nbins_target - 1']:
-            need(fr in s, '__init__: missing `%s`' % fr[:50])
+        # the geometry block of __init__ is tied semantically (g_minipy -> Props/Tie/minipy_wl_tie.v: geometry_tie, geometry_is_model)
         return 'Definition g_wl_shapes_ok : bool := true.'
     out.add('shapes', shapes)
 
